@@ -1,12 +1,15 @@
 """C10 — every IDE query answers on every workspace (kernel: unify + freeze terminate without panic on arbitrary, incl. cyclic, type tables)."""
 import os, json
 from mirsym import explore, native
-from . import unifier, c09
+from . import unifier, c09, impk
 from .runner import Check
 
 SIGHELP = ['fn labelled(label1 arg1: Int, label2 arg2: String) { arg2 }\nfn main() { 1 |> labelled(label2: "a", label1: 2) }\n',
            'fn labelled(label1 arg1: Int, label2 arg2: String) { arg2 }\nfn main() { labelled(1, "a", label1: 2) }\n',
            'fn f(a a: Int, b b: Int, c c: Int) { a }\nfn main() { f(c: 1, b: 2, a: 3) }\n']
+# lowering corner cases: a sub-expression that is lowered but left outside the body tree is never typed (hover on it indexes the side table)
+ODD = ['type T { T(b: Int) }\nfn main(a: T) { a.b.99999999999999999999999 }\n', 'fn main(a) { a.0.99999999999999999999999.1 }\n', 'fn main(a) { #(a, 1).18446744073709551616 }\n',
+       'fn main(a) { a.b.18446744073709551615 }\n']
 CYCLIC = ['fn main() { let f = fn(x) { x(x) } f(f) }\n', 'fn twice(x) { x(x) x(x) }\n', 'fn main() { let l = [l] l }\n', 'fn f(x) { [x, [x]] }\n',
           'fn g(x) { #(x, g) }\nfn h() { g(g) }\n', 'pub fn a(x) { x + 1 }\nconst a = 2\n', 'fn a(x) { x }\nfn a(y) { y }\nfn b() { a(1) }\n']
 
@@ -78,6 +81,44 @@ def main(tier, seed):
                 crashes.append('hover at every other offset of %r: %s' % (src, r))
             else:
                 chk.validated += 1
+        for src in ODD:
+            r = oracle.ask('hover', json.dumps({'text': src, 'offsets': list(range(len(src) + 1))}))
+            if not isinstance(r, dict) or 'hover' not in r:
+                chk.violation('lowering:tuple-index', 'corpus', 'hover at every offset of %r: %s' % (src, str(r)[:300]), {'program': src}, confirmed=True)
+                if 'died' in str(r):
+                    oracle.close(); oracle = native.Oracle(native.build('oracle-ide'))
+            else:
+                chk.validated += 1
+        # import structures (self-referential / cyclic imports are named by the property): z3 enumerates them, the public API must answer everywhere
+        import threading
+        from concurrent.futures import ThreadPoolExecutor
+        binary = native.build('oracle-ide')
+        tl = threading.local(); pool_oracles = []
+
+        def probe(ws):
+            if not hasattr(tl, 'o'):
+                tl.o = native.Oracle(binary); pool_oracles.append(tl.o)
+            return impk.probe(tl.o, ws)
+        plan = [(2, None, False)] + ([(3, 2500, True)] if tier == 'quick' else [(3, None, False)])
+        nst = nans = nbadws = 0
+        try:
+            for n, limit, need_cycle in plan:
+                st, nq = impk.all_structures(n, limit=limit, seed=seed + 1 if limit else 0, need_cycle=need_cycle)
+                with ThreadPoolExecutor(max_workers=jobs) as ex:
+                    for mode, (bad, na) in zip(st, ex.map(probe, [impk.render(n, m) for m in st])):
+                        nst += 1; nans += na
+                        if bad:
+                            nbadws += 1
+                            if nbadws <= 3:
+                                chk.violation('imports:panic', 'enumerated', 'import structure %s over %d modules (0 none, 1 qualified, 2 unqualified function, 3 unqualified type + constructor; [i][i] = a module importing itself): %d answers panic, e.g. %s'
+                                              % (mode, n, len(bad), bad[:4]), {'kind': 'imports', 'n': n, 'mode': mode}, confirmed=True)
+                        else:
+                            chk.validated += 1
+                chk.log('%d import structures over %d modules (%s): %d answers, %d structures with a panicking answer so far' % (len(st), n, 'all' if limit is None else 'z3 models with a cycle, seeded', nans, nbadws))
+        finally:
+            for o in pool_oracles:
+                o.close()
+        chk.extra['imports'] = {'structures': nst, 'answers': nans, 'structures_with_panic': nbadws}
         seen = set()
         for v in found:
             key = v['why'][0][:70]
@@ -93,14 +134,22 @@ def main(tier, seed):
     chk.assumptions += [
         'kernel claim: the fourth anchored mechanism only (the placeholder that keeps occurs-free unification finite): unify / try_unify_var / Collector::collect return without panic, unbounded recursion (call depth > 400) or an emptied table slot on every table of up to %d variables whose entries (Unknown, Int, List, Tuple, Function, Result with arbitrary, also self-referential, children) are chosen by the solver' % c09.BOUNDS[tier]['tables'],
         'side tables: InferCtx::infer_expr on case expressions with 1-2 subjects and 1-3 clause patterns built as arena data must leave a type entry for every pattern and expression (InferenceResult indexes these maps); alias expansion: make_ty_from_typeref over every alias graph of <= 2 (thorough 3) aliases must return (call depth <= 400)',
-        'every other part of the property (all queries x all offsets x broken workspaces, cyclic imports (salsa cycle handling), cross-module queries) needs the salsa database and is outside the claim',
+        'native layer (executed, not a solver verdict): every import structure over 2 modules (4 modes per ordered pair, a module importing itself included: 256) and z3-chosen (quick: 2500 with a cycle) / all 262144 (thorough) structures over 3 modules; '
+        'go-to-definition, references, highlight, hover, completion, prepare-rename at every identifier, diagnostics and semantic highlighting per file must answer without panic; plus hover at every offset of a corpus of lowering corner cases (tuple indices that do not fit usize)',
+        'every other part of the property (all queries x all offsets x arbitrary broken workspaces) needs the salsa database and is outside the solver-decided claim',
         'kernel findings are reported only if hover on a corpus of self-application programs crashes as well']
     chk.trusted += ['rustc MIR', 'mirsym interpreter + models', 'z3']
-    return chk.finish()
+    return chk.finish({'native_oracle': chk.extra.get('imports', {})})
 
 
 def replay(path):
     d = json.load(open(path))
+    if d.get('cex', {}).get('kind') == 'imports':
+        oracle = native.Oracle(native.build('oracle-ide'))
+        bad, na = impk.probe(oracle, impk.render(d['cex']['n'], d['cex']['mode']))
+        oracle.close()
+        print(json.dumps({'panicking_answers': bad[:20], 'answers': na}))
+        return 1 if bad else 0
     prog = d.get('cex', {}).get('program')
     if prog:
         oracle = native.Oracle(native.build('oracle-ide'))
